@@ -53,6 +53,7 @@ type c15rOp struct {
 	Md  string   `json:"md,omitempty"` // brk: stall close cancel error
 	N   int      `json:"n,omitempty"`  // build/reload: failing Gets first
 	Mid []c15rEv `json:"mid,omitempty"`
+	Dur []c15rEv `json:"dur,omitempty"` // build: events applied, and processed by the watchers, inside Build's first UpdateState call
 	Gap []c15rEv `json:"gap,omitempty"` // brk: events on prefix P after the streams ended, before the watches are re-created
 	Sch []int    `json:"sch,omitempty"`
 }
@@ -72,15 +73,23 @@ type c15rConn struct {
 	states int
 	last   []string
 	errs   int
+	// onFirst runs once, inside the first UpdateState call, after the state has been taken
+	// over (a real ClientConn serialises UpdateState calls in the order they arrive)
+	onFirst func()
 }
 
 func (c *c15rConn) UpdateState(s resolver.State) error {
 	c.mu.Lock()
-	defer c.mu.Unlock()
 	c.states++
 	c.last = c.last[:0]
 	for _, a := range s.Addresses {
 		c.last = append(c.last, a.Addr)
+	}
+	hook := c.onFirst
+	c.onFirst = nil
+	c.mu.Unlock()
+	if hook != nil {
+		hook()
 	}
 	return nil
 }
@@ -326,6 +335,22 @@ func c15rInterp(t *testing.T, c c15rCase) (v kit.Verdict) {
 				}
 				hadMid := midHook(p, o.Mid, true)
 				ch := &c15rChan{cc: &c15rConn{}, p: p}
+				if !hadMid && len(o.Dur) > 0 {
+					// The window AFTER NewSubscriber returned and before Build returns: the registry changes
+					// while the resolver hands its first state to the channel. (Not with events between
+					// snapshot and watch: their replay is handed out later and would overtake these; and not
+					// inside NewSubscriber's own Monitor window, which is finding F3's territory.) Build runs
+					// on this goroutine, so the hook may wait for the watchers.
+					dur := o.Dur
+					ch.cc.onFirst = func() {
+						classes["registry-changes-during-build"] = true
+						for _, e := range dur {
+							g := toggle(p, e)
+							fake.Apply(g.del, g.key, g.val, false)
+							kit.Wait()
+						}
+					}
+				}
 				// "etcd://host/key" is what rpc clients dial (rpcresolver.BuildDiscovTarget); "discov" is the same builder
 				u, perr := url.Parse(rpcresolver.BuildDiscovTarget([]string{host}, c15rPrefixes[p]))
 				if perr != nil {
@@ -346,8 +371,10 @@ func c15rInterp(t *testing.T, c c15rCase) (v kit.Verdict) {
 					return
 				}
 				chans = append(chans, ch)
-				if !hadMid {
+				if !hadMid && len(o.Dur) == 0 {
 					// "a subscriber that joins ... immediately sees the current set": no wait
+					// (with events inside Build the channel's own watch may still have to replay them:
+					// the fake hands replays out in pump below)
 					if !check(what+" (immediately after Build returned)", ch) {
 						return
 					}
@@ -500,6 +527,11 @@ func c15rGen(rt *rapid.T) c15rCase {
 			o.P = pickPrefix("bp")
 			o.N = getErrs()
 			o.Mid = mids()
+			if len(o.Mid) == 0 && rapid.IntRange(0, 2).Draw(rt, "hasdur") == 0 {
+				for j := rapid.IntRange(1, 2).Draw(rt, "ndur"); j > 0; j-- {
+					o.Dur = append(o.Dur, ev())
+				}
+			}
 			nch++
 		case "reload":
 			o.P = pickPrefix("relp")
